@@ -11,6 +11,7 @@ Compared: reply bytes / silence / exception class, the state afterwards, whether
 import itertools
 import random
 
+import c13_order
 import secsm
 from common import hx, setup_repo_import
 
@@ -30,6 +31,11 @@ ASSUMPTIONS = [
     "empty requests are outside the quantifier (request.service_id raises IndexError; robustness is property C14); "
     "the model reports them as `crash index` and the harness checks exactly that",
     "active session < 256 (to_bytes(session, 1) in the session-read rule)",
+    "process-level parser state (per-class tables filled while parsing: UDSService._SERVICES, the nested SubFunction classes of "
+    "RoutineControl / ReadDTCInformation / DynamicallyDefineDataIdentifier) is not part of the model, which answers from the request "
+    "BYTES alone; section 7 (harness/c13_order.py) therefore runs histories that mix these services in every order, each in a "
+    "freshly started interpreter, against the concrete model and checks that (state, request) -> answer is the same across "
+    "processes; orders of OTHER services parsed first in a process are covered only by the single long-lived check process",
     "time: the clock is read exactly twice per request (start, end) and is a multiple of 0.25 s in the tie (exact in binary "
     "floating point); the model counts ticks of 0.25 s in natural numbers (a clock running backwards counts as no gap)",
 ]
@@ -635,11 +641,178 @@ def _run(ctx, batch):
     #    exhaustively over a small alphabet of request kinds, with both clock reads of handle_request (harness/secsm.py)
     secsm.explore(ctx, "c13")
 
+    # 7. one server process per history: the specialised sub-function services in every order (harness/c13_order.py)
+    fresh_process_part(ctx)
+
+
+# ------------------------------------------------------------------------------------------------------------------
+# 7. fresh processes: which service is parsed FIRST in the server process must not matter
+# ------------------------------------------------------------------------------------------------------------------
+SPECIALISED = (0x31, 0x19, 0x2C)  # RoutineControl, ReadDTCInformation, DynamicallyDefineDataIdentifier
+
+
+def fresh_configs():
+    """models that offer the three specialised sub-function services with every sub-function in every session"""
+    handled = [0x10, 0x11, 0x27, 0x31, 0x22, 0x2E, 0x2F, 0x14, 0x19, 0x3E, 0x2C]
+    base = {"mandatory_services": handled, "optional_services": [], "p_sub_function": 1.0, "p_session": 1.0,
+            "mandatory_sessions": [1, 3], "optional_sessions": [2]}
+    return [
+        (31, dict(base, p_identifier=1.0, p_correct_payload_format=1.0, p_dtc_status_mask=1.0)),  # handlers positive
+        (32, dict(base, p_identifier=0.6, p_correct_payload_format=0.6, p_dtc_status_mask=0.5)),
+    ]
+
+
+def specialised_pool(rng):
+    """well-formed and a few malformed requests per specialised service, with and without the suppress bit"""
+    def sup(b):
+        return b | 0x80
+
+    rid = rng.randrange(0x10000).to_bytes(2, "big")
+    rid2 = rng.randrange(0x10000).to_bytes(2, "big")
+    msk = bytes([rng.choice([0xFF, 0x0F, rng.randrange(256)])])
+    dd = bytes([0xF2, rng.randrange(256)])
+    src = rng.randrange(0x10000).to_bytes(2, "big")
+    return {
+        0x31: [bytes([0x31, 1]) + rid, bytes([0x31, sup(1)]) + rid, bytes([0x31, 2]) + rid2 + bytes([rng.randrange(256)]),
+               bytes([0x31, sup(3)]) + rid2, bytes([0x31, 3]) + rid, bytes([0x31, 1, rid[0]])],
+        0x19: [bytes([0x19, 2]) + msk, bytes([0x19, sup(2)]) + msk, bytes([0x19, 1]) + msk, bytes([0x19, 0x0A]),
+               bytes([0x19, sup(0x0A)]), bytes([0x19, 6]) + rng.randrange(1 << 24).to_bytes(3, "big") + b"\xff", bytes([0x19, 2])],
+        0x2C: [bytes([0x2C, 1]) + dd + src + b"\x01\x01", bytes([0x2C, sup(1)]) + dd + src + b"\x01\x02", bytes([0x2C, 3]) + dd,
+               bytes([0x2C, sup(3)]) + dd, bytes([0x2C, 3]), bytes([0x2C, 2]) + dd + b"\x11\x20\x04", bytes([0x2C, 1]) + dd],
+    }
+
+
+def fresh_jobs(ctx):
+    rng = ctx.rng
+    jobs = []
+    for ci, (seed, params) in enumerate(fresh_configs()):
+        pool = specialised_pool(rng)
+        orders = list(itertools.permutations(SPECIALISED))
+        if ctx.quick and not getattr(ctx, "widened", False):
+            orders = orders if ci == 0 else [orders[rng.randrange(6)], orders[rng.randrange(6)]]
+        for oi, order in enumerate(orders):
+            hist = []
+            if (oi + ci) % 2 == 1:  # half of the histories in a non-default session
+                hist.append({"sym": "dsc", "pdu": "1003", "adv": 1, "dur": 1})
+            for sid in order + order[:2]:  # A B C A B: every service before and after every other one
+                reqs = list(pool[sid])
+                rng.shuffle(reqs)
+                for p in reqs:
+                    hist.append({"sym": f"svc{sid:02x}", "pdu": p.hex(), "adv": 1, "dur": 1})
+                hist.append({"sym": "filler", "pdu": rng.choice(["3e00", "22f190", "3e80", "22f186"]), "adv": 1, "dur": 1})
+            jobs.append({"rng_seed": ctx.seed, "seed": seed, "params": params, "mask": ALL_ON, "history": hist,
+                         "order": [f"{x:02x}" for x in order]})
+    return jobs
+
+
+def fresh_compare(ctx, job, res):
+    """-> list of (step index, impl, model) where the real server differs from the concrete model"""
+    out = ctx.lean(["model " + res["spec"]] + res["lines"])[1:]
+    return [(i, st["impl"], mo) for i, (st, mo) in enumerate(zip(res["steps"], out)) if st["impl"] != mo]
+
+
+def fresh_case(job, upto=None, keep=None):
+    hist = job["history"] if upto is None else job["history"][:upto + 1]
+    if keep is not None:
+        hist = [hist[k] for k in keep]
+    return {"kind": "fresh-history", "seed": job["seed"], "params": job["params"], "mask": job["mask"], "rng_seed": job["rng_seed"],
+            "history": hist}
+
+
+def fresh_process_part(ctx):
+    jobs = fresh_jobs(ctx)
+    results = c13_order.run_jobs(jobs)
+    seen = {}     # (config, pre-state, request) -> (reply / state, job index, step): the order-independence probe
+    reported = set()
+    for ji, (job, (res, err)) in enumerate(zip(jobs, results)):
+        ctx.ev()
+        if res is None:
+            ctx.disagree("c13:fresh-process:helper-failed", f"the fresh-process helper failed: {err}"[:600], fresh_case(job),
+                         spec_violated=False, site="harness/c13_order.py")
+            continue
+        ctx.traces_validated += 1
+        diffs = fresh_compare(ctx, job, res)
+        for i, st in enumerate(res["steps"]):
+            ctx.ev()
+            pdu = bytes.fromhex(job["history"][i]["pdu"])
+            ctx.kind(f"fresh:{job['history'][i]['sym']}:{secsm.F_out_kind(st['impl'])}")
+            ctx.nontrivial(("fresh", job["seed"], tuple(job["order"]), i, pdu))
+            if st["problems"]:
+                ctx.disagree(f"c13:fresh-process:unmodelled-draws:{pdu[0]:02x}", "; ".join(st["problems"])[:600],
+                             fresh_case(job, i), spec_violated=False, site="harness/c13_order.py")
+            if pdu[0] == 0x27:
+                continue
+            obs = " ".join(st["impl"].split()[:-1])  # without la=
+            k = (job["seed"], st["pre"], pdu)
+            if k in seen and seen[k][0] != obs and ("order", pdu[0]) not in reported:
+                reported.add(("order", pdu[0]))
+                oj, oi = seen[k][1], seen[k][2]
+                ctx.disagree(f"c13:order-dependent:svc={pdu[0]:02x}:{secsm.F_out_kind(seen[k][0] + ' x')}-vs-{secsm.F_out_kind(obs + ' x')}",
+                             f"the answer to request {pdu.hex()} in state `{st['pre']}` depends on what the server process parsed before: "
+                             f"`{seen[k][0]}` after {[h['pdu'] for h in jobs[oj]['history'][:oi]]} but `{obs}` after "
+                             f"{[h['pdu'] for h in job['history'][:i]]}"[:900],
+                             {"kind": "fresh-order", "a": fresh_case(jobs[oj], oi), "b": fresh_case(job, i)},
+                             impl=obs, model=seen[k][0], spec_violated=False, site="UDSRequest.parse_dynamic / UDSServer.respond")
+            seen.setdefault(k, (obs, ji, i))
+        if not diffs:
+            continue
+        i, impl, model = diffs[0]
+        pdu = bytes.fromhex(job["history"][i]["pdu"])
+        earlier = sorted({job["history"][k]["pdu"][:2] for k in range(i)} - {job["history"][i]["pdu"][:2]})
+        key = (f"c13:fresh-process:svc={pdu[0]:02x}:sup={int(len(pdu) > 1 and pdu[1] >= 0x80)}:impl={secsm.F_out_kind(impl)}"
+               f":expected={secsm.F_out_kind(model)}")
+        if key in reported or len(reported) >= 6:
+            continue
+        reported.add(key)
+        # shrink: the failing request alone, then after each single earlier request (each in its own fresh process)
+        keep = list(range(i + 1))
+        cands = [[i]] + [[k, i] for k in range(i)]
+        sub = [dict(job, history=[job["history"][x] for x in c]) for c in cands]
+        for c, sj, (sres, _e) in zip(cands, sub, c13_order.run_jobs(sub)):
+            if sres is None:
+                continue
+            sd = [d for d in fresh_compare(ctx, sj, sres) if d[0] == len(c) - 1]
+            if sd:
+                keep, impl, model = c, sd[0][1], sd[0][2]
+                break
+        case = fresh_case(job, i, keep)
+        ctx.disagree(key, f"virtual ECU (seed {job['seed']}, fresh server process) differs from the concrete model / ISO default rules "
+                          f"after the history {[h['pdu'] for h in case['history']]}: request {pdu.hex()} answered `{impl[:160]}` "
+                          f"expected `{model[:160]}` (services parsed earlier in the full history: {earlier})"[:900],
+                     case, impl=impl[:600], model=model[:600], spec_violated=True,
+                     site="UDSRequest.parse_dynamic / UDSServerTransport.handle_request / UDSServer.respond")
+    ctx.exhaustive_parts.append(f"{len(jobs)} histories, each in a server process that parsed nothing before: every order of the specialised "
+                                "sub-function services (31 / 19 / 2C, each before and after each other, with and without suppress bit, "
+                                "default and non-default session) on models offering all of them, compared reply by reply with the concrete "
+                                "model (raw-ness from C01's decode) + order-independence of (state, request) -> answer across processes")
+
+
+def fresh_replay(ctx, c):
+    bad = False
+    for name, h in ([("", c)] if c.get("kind") == "fresh-history" else [("a: ", c["a"]), ("b: ", c["b"])]):
+        job = {"rng_seed": h.get("rng_seed", 0), "seed": h["seed"], "params": h["params"], "mask": h.get("mask", ALL_ON),
+               "history": h["history"]}
+        (res, err), = c13_order.run_jobs([job])
+        if res is None:
+            print("helper failed:", err)
+            return True
+        out = ctx.lean(["model " + res["spec"]] + res["lines"])[1:]
+        for it, st, mo in zip(job["history"], res["steps"], out):
+            print(f"{name}request {it['pdu']} state {st['pre']} (fresh server process)")
+            print("   implementation:", st["impl"][:300])
+            print("   model         :", mo[:300])
+            print("   " + ("agree" if mo == st["impl"] else "DIFFERS"))
+            bad = bad or mo != st["impl"]
+    print("DISAGREE" if bad else "agree")
+    return bad
+
 
 def replay(ctx, case):
     c = case.get("case", case)
     if c.get("kind") == "history":
         return secsm.replay(ctx, c, "c13")
+    if c.get("kind") in ("fresh-history", "fresh-order"):
+        return fresh_replay(ctx, c)
     env = make_env(0)
     S = env["UDSIsoServices"]
     params = dict(c["params"])
@@ -687,7 +860,9 @@ MANIFEST = {
                    "reached states, sampled longer requests, state-aware histories, all 512 switch subsets in the thorough "
                    "tier (pairwise in quick), and all request sequences over 10 / 12 request kinds up to length 5 / 4 (6 / 5 "
                    "thorough) compared state by state and reply by reply with the concrete model, idle gaps of 9..11.25 s x "
-                   "handling durations, the state machine under switch subsets."),
+                   "handling durations, the state machine under switch subsets; and histories mixing the specialised "
+                   "sub-function services (31 / 19 / 2C, with and without suppress bit) in every order, each in a freshly started "
+                   "server process, compared with the concrete model plus an order-independence probe across processes."),
     "level_note": ("Trusted: Lean kernel (propext, Quot.sound, Classical.choice), the translator gen/c13_chain.py, the "
                    "harness incl. its RNG recorder and scripted clock. In the single-request part request parsing enters as "
                    "an input bit and respond_after_default as a recorded value; in the history part only the random draws "
